@@ -101,4 +101,85 @@ theorem oaep_roundtrip (hash mgfHash : Bytes → Bytes) (m seed : Bytes) (k : Na
   rw [ht, hd, dropWhile_zeros]
   simp
 
+/-! ### EMSA-PSS: what the encoder makes, the verifier accepts -/
+
+theorem u8_and_not (x t : UInt8) : (x &&& t) &&& (~~~ t) = 0 := by
+  apply UInt8.eq_of_toBitVec_eq
+  simp only [UInt8.toBitVec_and, UInt8.toBitVec_not, UInt8.toBitVec_zero]
+  ext i hi
+  simp
+theorem u8_mask_roundtrip (d m t : UInt8) : (((d ^^^ m) &&& t) ^^^ m) &&& t = d &&& t := by
+  apply UInt8.eq_of_toBitVec_eq
+  simp only [UInt8.toBitVec_and, UInt8.toBitVec_xor]
+  ext i hi
+  simp only [BitVec.getElem_and, BitVec.getElem_xor]
+  cases d.toBitVec[i] <;> cases m.toBitVec[i] <;> cases t.toBitVec[i] <;> rfl
+theorem topmask_odd (z : Nat) (hz : z ≤ 7) : (0x01 : UInt8) &&& UInt8.ofNat (0xFF >>> z) = 0x01 := by
+  have : z = 0 ∨ z = 1 ∨ z = 2 ∨ z = 3 ∨ z = 4 ∨ z = 5 ∨ z = 6 ∨ z = 7 := by omega
+  rcases this with h | h | h | h | h | h | h | h <;> subst h <;> decide
+
+/-- the first byte of `PS ‖ 01 ‖ salt` survives the clearing of the leftmost bits -/
+theorem db_head_mask (psLen : Nat) (salt : Bytes) (t : UInt8) (ht : (0x01 : UInt8) &&& t = 0x01) :
+    ∃ d0 dr, List.replicate psLen (0 : UInt8) ++ 0x01 :: salt = d0 :: dr ∧ d0 &&& t = d0 := by
+  cases psLen with
+  | zero => exact ⟨0x01, salt, by simp, ht⟩
+  | succ n => exact ⟨0, List.replicate n 0 ++ 0x01 :: salt, by simp [List.replicate_succ], by simp⟩
+
+/-- **EMSA-PSS round trip** -/
+theorem pss_roundtrip (hash mgfHash : Bytes → Bytes) (mHash salt : Bytes) (emBits hLen : Nat)
+    (hh : ∀ x, (hash x).length = hLen) (hmgf : ∀ s n, (mgf1 mgfHash s n).length = n)
+    (hm : mHash.length = hLen) (hfit : hLen + salt.length + 2 ≤ (emBits + 7) / 8) :
+    emsaPssVerify hash mgfHash mHash (emsaPssEncode hash mgfHash mHash salt emBits) emBits salt.length = true := by
+  generalize hemLen : (emBits + 7) / 8 = emLen at *
+  have hz : 8 * emLen - emBits ≤ 7 := by omega
+  generalize htm : UInt8.ofNat (0xFF >>> (8 * emLen - emBits)) = t
+  have ht : (0x01 : UInt8) &&& t = 0x01 := by rw [← htm]; exact topmask_odd _ hz
+  generalize hps : emLen - hLen - salt.length - 2 = psLen
+  obtain ⟨d0, dr, hdb, hd0⟩ := db_head_mask psLen salt t ht
+  have hdblen : (List.replicate psLen (0 : UInt8) ++ 0x01 :: salt).length = emLen - hLen - 1 := by simp; omega
+  generalize hhd : hash (List.replicate 8 0 ++ mHash ++ salt) = h
+  have hhl : h.length = hLen := by rw [← hhd]; exact hh _
+  have hmasklen := hmgf h (emLen - hLen - 1)
+  generalize hmk : mgf1 mgfHash h (emLen - hLen - 1) = mask at *
+  -- the mask has a head too
+  have hdrl : dr.length + 1 = emLen - hLen - 1 := by rw [hdb] at hdblen; simpa using hdblen
+  obtain ⟨m0, mr, hmask⟩ : ∃ m0 mr, mask = m0 :: mr := by
+    cases mask with
+    | nil => simp at hmasklen; omega
+    | cons a b => exact ⟨a, b, rfl⟩
+  have hmrl : mr.length = dr.length := by rw [hmask] at hmasklen; simp at hmasklen; omega
+  have hxr : (xorBytes dr mr).length = dr.length := by rw [xorBytes_length, hmrl]; simp
+  -- the encoded message
+  have henc : emsaPssEncode hash mgfHash mHash salt emBits = ((d0 ^^^ m0) &&& t) :: xorBytes dr mr ++ h ++ [0xbc] := by
+    unfold emsaPssEncode
+    simp only [hh, hemLen, hps, hhd, hmk, htm, hdb, hmask, xorBytes, List.zipWith_cons_cons]
+  rw [henc]
+  unfold emsaPssVerify
+  simp only [hh, hemLen, htm]
+  have hlen : (((d0 ^^^ m0) &&& t) :: xorBytes dr mr ++ h ++ [0xbc]).length = emLen := by
+    simp [hxr, hhl]; omega
+  have hlast : (((d0 ^^^ m0) &&& t) :: xorBytes dr mr ++ h ++ [0xbc]).getLast? = some 0xbc := by
+    rw [List.getLast?_append]; simp
+  have htake : (((d0 ^^^ m0) &&& t) :: xorBytes dr mr ++ h ++ [0xbc]).take (emLen - hLen - 1) = ((d0 ^^^ m0) &&& t) :: xorBytes dr mr := by
+    rw [List.append_assoc, List.take_append_of_le_length (by simp [hxr]; omega), List.take_of_length_le (by simp [hxr]; omega)]
+  have hdrop : ((((d0 ^^^ m0) &&& t) :: xorBytes dr mr ++ h ++ [0xbc]).drop (emLen - hLen - 1)).take hLen = h := by
+    rw [List.append_assoc, List.drop_append_of_le_length (by simp [hxr]; omega), List.drop_of_length_le (by simp [hxr]; omega)]
+    simp [hhl]
+  rw [hlen, hlast, htake, hdrop, hmk, hmask]
+  have h1 : ¬ emLen < hLen + salt.length + 2 := by omega
+  have hinv : xorBytes (xorBytes dr mr) mr = dr := xorBytes_involution dr mr hmrl.symm
+  simp only [hm, bne_self_eq_false, Bool.or_self, Bool.false_eq_true, if_false, h1, List.headD_cons, u8_and_not, xorBytes, List.zipWith_cons_cons]
+  have hinv' : List.zipWith (fun x1 x2 => x1 ^^^ x2) (List.zipWith (fun x1 x2 => x1 ^^^ x2) dr mr) mr = dr := hinv
+  simp only [hinv', u8_mask_roundtrip, hd0, hps]
+  simp only [← hdb]
+  have hz' : ((List.replicate psLen (0 : UInt8) ++ 0x01 :: salt).take psLen).any (· != 0) = false := by
+    rw [List.take_append_of_le_length (by simp), List.take_of_length_le (by simp)]; simp
+  have hone : (List.replicate psLen (0 : UInt8) ++ 0x01 :: salt).getD psLen 0 = 0x01 := by
+    simp [List.getD, List.getElem?_append_right]
+  have hsalt : (List.replicate psLen (0 : UInt8) ++ 0x01 :: salt).drop (psLen + 1) = salt := by
+    rw [List.drop_append]; simp
+  simp [hz', hone, hsalt]
+  simpa using hhd
+
+
 end Shm.Crypto
